@@ -596,7 +596,7 @@ fn main() {
     }
     let args = parse_args();
     let mut sink = Sink::new(&args.out);
-    let timeout = Duration::from_secs(if args.tier == "thorough" { 30 } else { 12 });
+    let timeout = Duration::from_secs(if args.tier == "thorough" { 20 } else { 6 });
     let mut w = Worker::spawn(timeout);
     if args.mode == "replay" {
         for line in read_cases(args.replay.as_ref().unwrap()) {
